@@ -747,6 +747,18 @@ def c03_flags(case, outcome=None):
         for u, d in per.items():
             if d['del'] and d['vac'] & d['occ']:
                 flag(u, 'delete_name_reuse')
+    # AddField folded with a later RenameField of the same field: the optimiser rewrites the
+    # AddField definition in place (F-C03-1); the Evolver's second pass then meets a
+    # RenameField whose source no longer exists
+    for b in _batches(case):
+        added = set()
+        for i in b:
+            m = seq[i]
+            if m['kind'] == 'AddField':
+                added.add((uids[i], m['field']['name']))
+            if m['kind'] == 'RenameField' and (uids[i], m['old']) in added:
+                flag(uids[i], 'add_then_rename')
+                added.add((uids[i], m['new']))
     # several ChangeFields of one field in the whole case (folding also looks across
     # barriers through the stale signature), or a ChangeField of a field added in the case
     per_field = {}
@@ -1132,3 +1144,154 @@ def wrapper_q_squashed_on_load(case, outcome, atoms):
         return atoms
     return [a for a in atoms if a[0] not in ('str_differs', 'value_differs',
                                              'simulated_signature_differs', 'sql_differs')]
+
+
+# ---------------------------------------------------------------------------
+# C04
+# ---------------------------------------------------------------------------
+
+def _has_percent_literal(v):
+    if isinstance(v, dict):
+        if v.get('op') == 'leaf':
+            val = v.get('value')
+            vals = val if isinstance(val, list) else [val]
+            return any(isinstance(x, str) and '%' in x for x in vals)
+        return any(_has_percent_literal(x) for x in v.values())
+    if isinstance(v, (list, tuple)):
+        return any(_has_percent_literal(x) for x in v)
+    return False
+
+
+@explainer
+def percent_literal_in_model_creation_sql(case, outcome, atoms):
+    """Creating a new model whose index condition / constraint contains a string
+    literal with a percent sign fails: the collected CREATE statements are
+    %-formatted again ("not enough arguments for format string")."""
+    if not _has_percent_literal(case.get('history') or case.get('spec')):
+        return atoms
+    return [a for a in atoms if not (a[0] == 'run_failed' and a[2] == 'TypeError' and
+                                     'collect_sql_schema_editor' in str(a[3]))]
+
+
+@explainer
+def fresh_install_replays_rename_chain(case, outcome, atoms):
+    """Installing an app from scratch simulates its whole SEQUENCE (to find the
+    upgrade method); a SEQUENCE that renames one model more than once hits the
+    optimiser's RenameModel chain handling (F-C03-4) and the fresh install
+    itself fails."""
+    if 'model_level' not in (outcome.get('history_flags') or []):
+        return atoms
+    return [a for a in atoms if not (a[0] == 'run_failed' and str(a[1]).startswith('fresh') and
+                                     a[2] in ('EvolutionBaselineMissingError', 'CommandError',
+                                              'MissingSignatureError'))]
+
+
+@explainer
+def stored_signature_keeps_explicit_defaults(case, outcome, atoms):
+    """F-C05-1 seen from the version table: simulating AddField/ChangeField
+    leaves attributes that equal their default explicitly in the stored
+    signature; both diffs with the models' signature are empty, == is False."""
+    h = case.get('history') or {}
+    if not any(m['kind'] in ('AddField', 'ChangeField') for s in h.get('steps', [])
+               if s['type'] == 'evolve' for m in s['seq']):
+        return atoms
+    return [a for a in atoms if a[0] != 'stored_sig_unequal']
+
+
+@explainer
+def rename_model_to_new_table_through_evolver(case, outcome, atoms):
+    """RenameModel(..., db_table=<new name>) cannot be applied through the
+    Evolver: the renamed model's table does not exist yet, so the Evolver
+    creates it as a brand-new model first and the rename then fails with
+    "there is already another table or index with this name"."""
+    from . import specs as S
+    h = case.get('history') or {}
+    trigger = False
+    for s_ in h.get('steps', []):
+        if s_['type'] == 'evolve':
+            for m in s_['seq']:
+                if m['kind'] == 'RenameModel':
+                    trigger = True
+    if not trigger:
+        return atoms
+    return [a for a in atoms if not (a[0] == 'run_failed' and
+                                     'there is already another table' in str(a[4]))]
+
+
+@explainer
+def rebuild_drops_meta_along_path(case, outcome, atoms):
+    """F-C01-1 along an upgrade path: tables rebuilt by the path lack the
+    Meta-derived indexes/constraints that a fresh install has."""
+    info = outcome.get('path_info') or {}
+    out = []
+    for a in atoms:
+        if a[0] == 'path_schema' and a[3] in ('index', 'check') and a[5] == 'missing':
+            reb = (info.get(a[1]) or {}).get('rebuilt') or []
+            if a[2] in reb:
+                continue
+        out.append(a)
+    return out
+
+
+@explainer
+def app_level_dependency_on_settled_app(case, outcome, atoms):
+    """An evolution that declares AFTER_EVOLUTIONS = ['<app>'] (the whole app)
+    fails graph finalisation with an AssertionError when that app has nothing
+    pending in this run: its __first__/__last__ anchor nodes only exist while
+    the app has pending evolutions or new models."""
+    h = case.get('history') or {}
+    grown = False
+    trigger = False
+    for s_ in h.get('steps', []):
+        if s_['type'] != 'evolve':
+            grown = True
+        elif grown:
+            trigger = True
+    if not trigger:
+        return atoms
+    return [a for a in atoms if not (a[0] == 'run_failed' and a[2] == 'AssertionError' and
+                                     '__last__" was not found' in str(a[4]))]
+
+
+@explainer
+def relation_to_app_installed_in_same_run(case, outcome, atoms):
+    """Tasks are prepared (their mutations simulated) in INSTALLED_APPS order,
+    before the dependency graph orders execution: an evolution that adds a
+    relation to a model of an app that is installed in the same run, and that
+    is listed later, cannot find that app's signature."""
+    h = case.get('history') or {}
+    new_apps = set()
+    trigger = False
+    for s_ in h.get('steps', []):
+        if s_['type'] == 'new_app':
+            new_apps.add(s_['app'])
+        elif s_['type'] == 'evolve':
+            for m in s_['seq']:
+                if m['kind'] == 'AddField' and m['field'].get('target') and \
+                        m['field']['target'][0] in new_apps:
+                    trigger = True
+    if not trigger:
+        return atoms
+    return [a for a in atoms if not (a[0] == 'run_failed' and
+                                     a[2] in ('MissingSignatureError', 'CommandError') and
+                                     ('get_app_sig' in str(a[3]) or
+                                      'Unable to find an application signature' in str(a[4])))]
+
+
+@explainer
+def callable_initial_overwrites_column_along_path(case, outcome, atoms):
+    """F-C02-1 along an upgrade path (ChangeField(null=False, initial=<callable>)
+    overwrites every value of the column)."""
+    from . import specs as S
+    h = case.get('history') or {}
+    names = set()
+    for s_ in h.get('steps', []):
+        if s_['type'] == 'evolve':
+            for m in s_['seq']:
+                if m['kind'] == 'ChangeField' and m['attrs'].get('null') is False and \
+                        isinstance(m.get('initial'), dict) and 'callable' in m['initial']:
+                    names.add(m['name'])
+    if not names:
+        return atoms
+    return [a for a in atoms if not (a[0] == 'path_rows' and a[2] == 'value_changed' and
+                                     str(a[4]).split('.')[-1] in names)]
